@@ -52,7 +52,7 @@ def run(ck: Check):
         ("ClgnCifar10", lambda k, kw: M.ClgnCifar10(n_bits=1, k_num=k, tau=2.0, **kw), (3, 32, 32), 2.0, False, "ClgnCifar10_nbits1_layers"),
         ("ClgnCifar10Res", lambda k, kw: M.ClgnCifar10Res(n_bits=1, k_num=k, tau=2.0, **kw), (3, 32, 32), 2.0, True, "ClgnCifar10Res_nbits1_layers"),
         ("ClgnCifar10Tiny", lambda k, kw: M.ClgnCifar10Tiny(k_num=k, **kw), (9, 32, 32), 20.0, False, "ClgnCifar10Tiny_layers"),
-        ("ClgnCifar10Mini", lambda k, kw: M.ClgnCifar10Mini(k_num=k, **kw), (9, 32, 32), 20.0, False, "ClgnCifar10Mini_layers"),
+        ("ClgnCifar10Mini", lambda k, kw: M.ClgnCifar10Mini(k_num=k, **kw), (9, 32, 32), 10.0, False, "ClgnCifar10Mini_layers"),
         ("DlgnMnist", lambda k, kw: M.DlgnMnist(neurons_per_layer=10 * k, tau=4.0, **kw), (1, 28, 28), 4.0, False, "DlgnMnist_layers"),
         ("DlgnCifar10", lambda k, kw: M.DlgnCifar10(n_bits=2, n_layers=4, neurons_per_layer=10 * k, tau=4.0, **kw), (6, 32, 32), 4.0, False, "DlgnCifar10_2_4_layers"),
         ("Dlgn", lambda k, kw: M.Dlgn(in_dim=12, n_layers=3, neurons_per_layer=4 * k, class_count=4, tau=1.0, **kw), (1, 3, 4), 1.0, False, "Dlgn_generic_layers"),
@@ -120,6 +120,25 @@ def run(ck: Check):
         except Exception as e:
             ck.disagree("exported model class fails with a gradient factor / temperature passed through its keyword arguments", case,
                         observed=repr(e)[:300], signature={"class": name, "what": "options"})
+    # a tau given to a class reaches its group sum (real objects; the translator checks the same on the recording stubs)
+    import inspect
+    for cname in ("ClgnCifar10", "ClgnCifar10Res", "ClgnCifar10Mini", "DlgnMnist", "DlgnCifar10", "Dlgn", "CNN"):
+        cls = getattr(M, cname, None)
+        if cls is None or "tau" not in inspect.signature(cls.__init__).parameters:
+            continue
+        kwargs = {"ClgnCifar10": dict(n_bits=1, k_num=1), "ClgnCifar10Res": dict(n_bits=1, k_num=1), "ClgnCifar10Mini": dict(k_num=1),
+                  "DlgnMnist": dict(neurons_per_layer=10), "DlgnCifar10": dict(n_bits=1, n_layers=2, neurons_per_layer=10),
+                  "Dlgn": dict(in_dim=12, n_layers=2, neurons_per_layer=8, class_count=4), "CNN": dict(class_count=10)}[cname]
+        case = {"class": cname, "tau": 8.0}
+        ck.case(case, nontrivial=True, kind="tau-plumbing")
+        try:
+            mdl = cls(tau=8.0, device="cpu", **kwargs)
+            gsl = [m_ for m_ in mdl.modules() if type(m_).__name__ == "GroupSum"]
+            if not gsl or float(gsl[-1].tau) != 8.0:
+                ck.disagree("the tau given to a model class does not reach its group sum", dict(case, groupsum_tau=float(gsl[-1].tau) if gsl else None),
+                            signature={"class": cname, "what": "tau"})
+        except Exception as e:
+            ck.disagree("exported model class cannot be constructed with a tau", case, observed=repr(e)[:200], signature={"class": cname, "what": "construct"})
     # scales at which a comparison inside a constructor takes the other branch (reported by the translator): the real class there
     for cls, kwargs, shape in list(t_models.LAST_EXCEPTIONAL)[:6]:
         case = {"class": cls, "exceptional_scale": True, **{k_: v for k_, v in kwargs.items()}}
